@@ -109,7 +109,29 @@ Esc10 == {[tree |-> [n \in DOMAIN Comps07 \cup {"home", "layouts/main"} |->
                          [] n = "layouts/main" -> Tpl(NoUse, LayA) [] OTHER -> Comps07[n]],
             page |-> "home", d |-> Data07, tags |-> <<"c10", "tree">>]}
 
+(* ---------- C07 / C04: an argument named like a visible variable of another type is bound or refused, never dropped ---------- *)
+PolicyShadow == "shadow"
+OuterVals == {IntL(7), BoolL(TRUE), BoolL(FALSE), Lit(F(5, 1), "2.5", "float"), ArrL(<<IntL(1)>>)}
+Data07c == Data07 \o <<[n |-> "a", v |-> I(5)], [n |-> "name", v |-> B(TRUE)]>>
+Collide07 ==
+  \* the outer name is assigned in the page, the component prints its three arguments
+  {[tree |-> Tree07(<<Assign(k, ov, 1), H("<"), Comp(Alias("two"), <<Arg("a", StrL("A")), Arg("b", StrL("B")), Arg("c", StrL("C"))>>, <<>>, 1), H(">")>>),
+    page |-> "home", d |-> Data07, tags |-> <<"c07", "collide", "assigned">>] : k \in {"a", "b", "c"}, ov \in OuterVals}
+  \* the outer name comes from the data map
+  \cup {[tree |-> Tree07(<<H("<"), u, H(">")>>), page |-> "home", d |-> Data07c, tags |-> <<"c07", "collide", "data">>] :
+          u \in {Comp(Alias("two"), <<Arg("a", StrL("A")), Arg("b", StrL("B")), Arg("c", StrL("C"))>>, <<>>, 1),
+                 Comp(Alias("plain"), <<Arg("name", StrL("Ann"))>>, <<>>, 1), Comp(Ref("card"), <<Arg("name", Var("who"))>>, <<>>, 1)}}
+  \* the outer name is a loop variable, an integer argument over a string
+  \cup {[tree |-> Tree07(<<Each("name", Var("xs"), <<H("["), Comp(Alias("plain"), <<Arg("name", IntL(3))>>, <<>>, 1), H("]")>>, NoElse, 1)>>),
+         page |-> "home", d |-> Data07, tags |-> <<"c07", "collide", "loopvar">>]}
+  \* and inside an insert of a page that uses a layout
+  \cup {[tree |-> [n \in DOMAIN Comps07 \cup {"home", "layouts/main"} |->
+                    CASE n = "home" -> Tpl(Alias("main"), <<InsertB("content", <<Assign("name", IntL(1), 1), Comp(Alias("plain"), <<Arg("name", StrL("Ann"))>>, <<>>, 1)>>, 1), InsertE("title", StrL("t"), 1)>>)
+                      [] n = "layouts/main" -> Tpl(NoUse, LayA) [] OTHER -> Comps07[n]],
+         page |-> "home", d |-> Data07, tags |-> <<"c07", "collide", "in-insert">>]}
+
 Cases == CASE Family = "c06" -> Good06 \cup Bad06
+           [] Family = "c07collide" -> Collide07
            [] Family = "c10tree" -> Esc10
            [] Family = "c07" -> Good07 \cup InLayout07 \cup Bad07
 
@@ -142,7 +164,8 @@ FileSrc(f) == IF f.kind = "bad" THEN f.src
 Files(t) == LET ns == SetToSeq(DOMAIN t) IN [i \in 1..Len(ns) |-> [name |-> ns[i], src |-> FileSrc(t[ns[i]])]]
 LoadExpect(t) == IF Faulty(t) = {} THEN [ok |-> TRUE, names |-> SetToSeq({n \in DOMAIN t : ~LinkFile(t, n).layout})]
                  ELSE [ok |-> FALSE, mentions |-> SetToSeq(UNION {{LinkFile(t, n).file, LinkFile(t, n).what} : n \in Faulty(t)})]
-Expectation == CASE status = "done" -> [kind |-> "out", out |-> Output]
+Expectation == CASE status = "done" /\ Family = "c07collide" -> [kind |-> "errorout", out |-> Output, why |-> "argument named like a visible variable of another type"]
+                 [] status = "done" -> [kind |-> "out", out |-> Output]
                  [] status = "err" -> [kind |-> "err", why |-> why]
                  [] OTHER -> [kind |-> "any"]
 Record == [files |-> Files(cas.tree), cfg |-> [dir |-> "tpl", ext |-> ".tw"], load |-> LoadExpect(cas.tree),
